@@ -188,7 +188,9 @@ Section Single.
   Lemma overlay_all_single V0 src dst r :
     o_wild o = false -> x_isdir (xview_of V0 []) = true -> overlay_all o sroot V0 src dst = inl r ->
     exists X1 eps ms sn D V1,
-      ((X1 = xview_of V0 /\ eps = []) \/ (exists ep, make_dirs o [] ep (xview_of V0) = inl X1 /\ eps = prefixes [] ep)) /\
+      ((ensure_arg dst = [] /\ X1 = xview_of V0 /\ eps = []) \/
+       (ensure_arg dst <> [] /\ exists ep, spec_resolve (xview_of V0) (ensure_arg dst) = inl ep /\
+                                           make_dirs o [] ep (xview_of V0) = inl X1 /\ eps = prefixes [] ep)) /\
       parse_of = Some ms /\ s_resolve sroot (rooted src) = inl sn /\ spec_resolve X1 (clean dst) = inl D /\
       let L := landing o sn src D X1 in
       let target := if o_dircontents o && is_dir (sdent sn) && negb (x_exists (X1 D)) then L else parent L in
@@ -243,7 +245,7 @@ Section Single.
       intro H; inversion H; subst r; clear H. cbn [xr_view xr_notifs xr_landings xr_merged xr_paths].
       destruct (Core _ [] ms r0 Hroot E0) as (sn & D & V1 & A1 & A2 & A3 & A4 & A4' & A5 & A6 & A7 & A8 & A9).
       exists (xview_of V0), [], ms, sn, D, V1. cbv zeta. spl; auto.
-    - destruct (spec_resolve (xview_of V0) (c0 :: e0)) as [ep|]; [|discriminate].
+    - destruct (spec_resolve (xview_of V0) (c0 :: e0)) as [ep|] eqn:ESR; [|discriminate].
       destruct (make_dirs o [] ep (xview_of V0)) as [X1|] eqn:EM; [|discriminate].
       destruct parse_of as [ms|] eqn:Ep; unfold parse_of in Ep; rewrite Ep; [|discriminate].
       destruct (overlay_srcs o sroot ms dst [src] X1) as [r0|] eqn:E0; [|discriminate].
@@ -251,6 +253,7 @@ Section Single.
       pose proof (make_dirs_mono o _ _ _ _ EM [] Hroot) as Hr1.
       destruct (Core _ (prefixes [] ep) ms r0 Hr1 E0) as (sn & D & V1 & A1 & A2 & A3 & A4 & A4' & A5 & A6 & A7 & A8 & A9).
       exists X1, (prefixes [] ep), ms, sn, D, V1. cbv zeta. spl; eauto.
+      right. split; [discriminate|]. exists ep. auto.
   Qed.
 End Single.
 
@@ -432,14 +435,14 @@ Section C13.
     { intros p e. unfold X0, xview_of, view_of_fs. destruct (path_dec p []) as [->|Hn]; auto.
       rewrite (Hemp p Hn). discriminate. }
     assert (H1 : forall p e, X1 p = Some e -> p = [] \/ fresh_dir_like (x_d e)).
-    { destruct B1 as [[-> _]|(ep & EM & _)]; intros p e Hpe.
+    { destruct B1 as [(_ & -> & _)|(_ & ep & _ & EM & _)]; intros p e Hpe.
       - left. eapply H0; eauto.
       - destruct (make_dirs_shape _ _ _ _ _ EM p e Hpe) as [(e0 & A & _)|F]; auto. left. eapply H0; eauto. }
     assert (H2 : forall p e, V1 p = Some e -> p = [] \/ fresh_dir_like (x_d e)).
     { intros p e Hpe. destruct (make_dirs_shape _ _ _ _ _ B5 p e Hpe) as [(e0 & A & B)|F]; auto.
       rewrite <- B. eapply H1; eauto. }
     assert (D1 : forall p, X1 p <> None -> p = [] \/ In p eps).
-    { destruct B1 as [[-> ->]|(ep & EM & ->)]; intros p Hpn.
+    { destruct B1 as [(_ & -> & ->)|(_ & ep & _ & EM & ->)]; intros p Hpn.
       - left. destruct (X0 p) eqn:E; [eapply H0; eauto|congruence].
       - destruct (make_dirs_dom _ _ _ _ _ EM p Hpn) as [A|A]; auto.
         left. destruct (X0 p) eqn:E; [eapply H0; eauto|congruence]. }
@@ -557,3 +560,78 @@ Section C13.
     - intros q. apply notifs_dirs; auto.
   Qed.
 End C13.
+
+Lemma copied_known' o ms multi s old top p : x_known (copied o ms multi s old top p) = true.
+Proof.
+  unfold copied, new_entry. destruct old as [e|]; auto.
+  destruct (is_dir (sdent s) && is_dir (x_d e)); auto. destruct top; auto.
+Qed.
+
+(* ------------------------------------------------------------------ C15: always-replace, the source wins *)
+Section Wins.
+  Variable o : copts.
+  Variable sroot : snode.
+  Hypothesis Hsrc : wf_src sroot.
+  Hypothesis Hnl : no_link_groups sroot.
+  Notation multi := (multi_of sroot).
+
+  Lemma faithful_ftype ms sd d : faithful_dent o ms sd d = true -> ftype d = copy_type sd.
+  Proof.
+    unfold faithful_dent. intro H. repeat (apply andb_true_iff in H as [H _]). apply N.eqb_eq. auto.
+  Qed.
+
+  (* after a successful copy every source entry is at its destination path with the source's
+     type; a source non-directory is there as a faithful copy, whatever was there before *)
+  Theorem source_entries_present_partial_proof fs src dst r ms sn L :
+    o_wild o = false -> wf_fs fs ->
+    overlay_all o sroot (view_of_fs fs) src dst = inl r ->
+    parse_of o = Some ms -> s_resolve sroot (rooted src) = inl sn -> xr_landings r = [L] ->
+    exists st', copy_top o sel_all sroot fs src dst = (st', None) /\
+      forall rel s, s_lookup sn rel = Some s ->
+        exists i d, view_of_fs (c_fs st') (L ++ rel) = Some (i, d) /\ ftype d = copy_type (sdent s) /\
+                    (is_dir (sdent s) = false -> faithful_dent o ms (sdent s) d = true).
+  Proof.
+    intros Hw Hfs Eo Hp Hs HL.
+    pose proof (top o sroot Hsrc Hnl fs src dst Hfs) as HT. rewrite Eo in HT.
+    destruct HT as (st' & E1 & I & S & _).
+    exists st'. split; auto.
+    destruct (inv_init o fs Hfs) as (_ & Hroot & _).
+    destruct (overlay_all_single o sroot Hsrc Hnl _ src dst r Hw Hroot Eo)
+      as (X1 & eps & ms' & sn' & D & V1 & B1 & B2 & B3 & B4 & B5 & B6 & B7 & B8 & B9 & B10 & B11 & B12).
+    rewrite Hp in B2. inversion B2; subst ms'. rewrite Hs in B3. inversion B3; subst sn'.
+    rewrite HL in B10. inversion B10 as [HL']. rewrite <- HL' in *. clear HL' B10.
+    intros rel s Es.
+    pose proof (B8 (L ++ rel)) as Ex. rewrite (res_at_source o sroot ms sn L V1 rel s B7 Es) in Ex.
+    destruct (inv_x_some _ _ _ _ _ I Ex) as (i & Hi & Hdm & _).
+    exists i, (inodes (c_fs st') i). split; [unfold view_of_fs; rewrite Hi; auto|].
+    pose proof (S _ _ _ Hi Ex (copied_known' _ _ _ _ _ _ _)) as Ht.
+    unfold copied in Hdm, Ht.
+    destruct (V1 (L ++ rel)) as [e|] eqn:EV.
+    - destruct (is_dir (sdent s) && is_dir (x_d e)) eqn:Eb.
+      + apply andb_true_iff in Eb as [Ed Ed']. split; [|congruence].
+        destruct (type_facts (sdent s)) as (_ & _ & TD). destruct (TD Ed) as (_ & _ & _ & _ & C5). rewrite C5.
+        unfold is_dir in Ed'. apply N.eqb_eq in Ed'. rewrite <- Ed'. destruct Hdm as (Hm & _).
+        destruct (match rel with [] => true | _ :: _ => false end); cbn [x_d] in Hm.
+        * apply ftype_mode; auto.
+        * rewrite (ftype_mode _ _ Hm). unfold merged_d. rewrite ftype_set_xattrs, ftype_set_mtime, ftype_set_perm. reflexivity.
+      + assert (Hf : faithful_dent o ms (sdent s) (inodes (c_fs st') i) = true) by (eapply faithful_new_entry; eauto).
+        split; auto. eapply faithful_ftype; eauto.
+    - assert (Hf : faithful_dent o ms (sdent s) (inodes (c_fs st') i) = true) by (eapply faithful_new_entry; eauto).
+      split; auto. eapply faithful_ftype; eauto.
+  Qed.
+
+  Theorem always_replace_source_wins_partial_proof fs src dst ms sn :
+    o_replace o = true -> o_wild o = false -> wf_fs fs ->
+    parse_of o = Some ms -> s_resolve sroot (rooted src) = inl sn ->
+    (forall cls p bef, overlay_all o sroot (view_of_fs fs) src dst <> inr (XConflict cls p bef)) /\
+    (forall r L, overlay_all o sroot (view_of_fs fs) src dst = inl r -> xr_landings r = [L] ->
+       exists st', copy_top o sel_all sroot fs src dst = (st', None) /\
+         forall rel s, s_lookup sn rel = Some s ->
+           exists i d, view_of_fs (c_fs st') (L ++ rel) = Some (i, d) /\ ftype d = copy_type (sdent s) /\
+                       (is_dir (sdent s) = false -> faithful_dent o ms (sdent s) d = true)).
+  Proof.
+    intros Hr Hw Hfs Hp Hs. split.
+    - intros cls p bef. apply always_replace_never_conflicts_proof; auto.
+    - intros r L Eo HL. eapply source_entries_present_partial_proof; eauto.
+  Qed.
+End Wins.
